@@ -166,6 +166,8 @@ pub enum Shape {
     SysTime,
     /// u16 kind code from the documented table + message string
     IoError,
+    /// i64 nanoseconds since the epoch (chrono DateTime<Utc>)
+    Timestamp,
 }
 
 pub const IO_KINDS: [u16; 20] = [1, 2, 3, 4, 7, 8, 9, 10, 12, 13, 14, 21, 22, 23, 24, 36, 37, 38, 39, 40];
@@ -301,7 +303,7 @@ fn enc(e: &mut Encoder, v: &Val, s: &Shape) -> Result<(), String> {
         Shape::I8 => int!(1, true),
         Shape::I16 => int!(2, true),
         Shape::I32 => int!(4, true),
-        Shape::I64 | Shape::ISize => int!(8, true),
+        Shape::I64 | Shape::ISize | Shape::Timestamp => int!(8, true),
         Shape::I128 => int!(16, true),
         Shape::F32 => match v {
             Val::F32(b) => {
@@ -474,7 +476,7 @@ pub fn fixed_size(s: &Shape, version: u32) -> Option<usize> {
         Shape::Bool | Shape::U8 | Shape::I8 => 1,
         Shape::U16 | Shape::I16 => 2,
         Shape::U32 | Shape::I32 | Shape::F32 | Shape::Char | Shape::Canary => 4,
-        Shape::U64 | Shape::I64 | Shape::USize | Shape::ISize | Shape::F64 => 8,
+        Shape::U64 | Shape::I64 | Shape::USize | Shape::ISize | Shape::F64 | Shape::Timestamp => 8,
         Shape::U128 | Shape::I128 | Shape::Duration | Shape::SysTime => 16,
         Shape::Array(n, inner) => n * fixed_size(inner, version)?,
         Shape::Tuple(shapes) => {
@@ -652,7 +654,7 @@ fn dec(d: &mut Decoder, s: &Shape) -> Result<Val, String> {
         Shape::I8 => Val::I(d.i(1)?),
         Shape::I16 => Val::I(d.i(2)?),
         Shape::I32 => Val::I(d.i(4)?),
-        Shape::I64 | Shape::ISize => Val::I(d.i(8)?),
+        Shape::I64 | Shape::ISize | Shape::Timestamp => Val::I(d.i(8)?),
         Shape::I128 => Val::I(d.i(16)?),
         Shape::F32 => Val::F32(d.u(4)? as u32),
         Shape::F64 => Val::F64(d.u(8)? as u64),
@@ -964,7 +966,7 @@ fn gen(s: &Shape, rng: &mut Rng, version: u32, budget: &mut usize, depth: u32) -
         Shape::I8 => Val::I(gen_int(rng, 8)),
         Shape::I16 => Val::I(gen_int(rng, 16)),
         Shape::I32 => Val::I(gen_int(rng, 32)),
-        Shape::I64 | Shape::ISize => Val::I(gen_int(rng, 64)),
+        Shape::I64 | Shape::ISize | Shape::Timestamp => Val::I(gen_int(rng, 64)),
         Shape::I128 => Val::I(gen_int(rng, 128)),
         Shape::F32 => Val::F32(*rng.pick(&[
             0u32, 0x8000_0000, 0x3f80_0000, 0xbf80_0000, 0x7f80_0000, 0xff80_0000, 0x7fc0_0000, 0x7fa0_1234, 0xffc0_0001, 1, 0x007f_ffff,
